@@ -1171,6 +1171,71 @@ def o_edge_end(mir, tier, seed):
     return dict(theory='Real + Int (quadrants as their declaration order); orient2d of the robust kernel uninterpreted (three-valued)', functions=['EdgeEndKey::compare_direction'], paths=npaths, status=st, info=info, model=None, replay=('relate_units', ''))
 
 
+@obligation('C08', 'hull_set_recursion_step', 'one level of quick_hull\'s recursion hull_set(a, b, set, hull) for sets of 0-4 points with ANY integer coordinates: nothing for an empty set, the point itself for a singleton; otherwise the point f it moves to the hull maximises the signed distance from line a-b (ties: the last one, as std max_by), it recurses on (f, b) then (a, f) over exactly the other points, and pushes f between the two recursive calls (partition_slice and the recursive calls uninterpreted; each path re-executed from scratch)')
+def o_hull_set(mir, tier, seed):
+    from mir2smt import SliceView
+    fn = mir.find('geo', r'hull_set')
+    T = IntTheory()
+    bad, npaths = [], 0
+    for n in (0, 1, 2, 3, 4):
+        a, b = coord(T, 'a'), coord(T, 'b')
+        cs = [coord(T, 'p%d_' % i) for i in range(n)]
+        state = {}
+
+        def make_args(state=state, cs=cs, a=a, b=b, n=n):
+            state['events'], state['hull'] = [], []
+            state['base'] = [list(c) for c in cs]
+            return [list(a), list(b), SliceView(state['base'], 0, n), Ref(lambda: state['hull'])]
+
+        def part(ip, d, state=state):
+            clo = deref(d[1])
+            state['events'].append(('partition', [list(x) for x in d[0].items()], [deref(f) for f in clo.fields]))
+            return [SliceView(d[0].base, d[0].start, d[0].end), SliceView(d[0].base, d[0].end, d[0].end)]
+
+        def rec(ip, d, state=state):
+            state['events'].append(('hull_set', deref(d[0]), deref(d[1]), [list(x) for x in d[2].items()], len(deref(d[3]))))
+            return []
+
+        def collect(state=state):
+            return (list(state['events']), [list(x) for x in state['hull']])
+        ip = Interp(mir, T, EXTRA, {'re:(utils::)?partition_slice::<.*>': part, 're:hull_set::<\\w+>': rec})
+        results = ip.explore(fn, make_args, collect)
+        npaths += len(results)
+        same = lambda u, v: len(u) == len(v) and all(x.eq(y) for x, y in zip(u, v))
+        covered = []
+        for pc, val, (events, hull) in results:
+            covered.append(pc)
+            if isinstance(val, tuple) and val and val[0] == 'halted':
+                bad.append(pc)
+                continue
+            if n == 0:
+                ok = not events and not hull
+            elif n == 1:
+                ok = not events and len(hull) == 1 and same(hull[0], cs[0])
+            else:
+                f = [i for i in range(n) if len(hull) == 1 and same(hull[0], cs[i])]
+                ok = len(f) == 1 and len(events) == 4
+                if ok:
+                    f = f[0]
+                    rest = [cs[i] for i in range(n) if i != f]
+                    perm = lambda items: len(items) == len(rest) and all(sum(1 for y in items if same(x, y)) == sum(1 for y in rest if same(x, y)) for x in rest)
+                    e = events
+                    ok = e[0][0] == 'partition' and perm(e[0][1]) and e[1][0] == 'hull_set' and same(e[1][1], cs[f]) and same(e[1][2], b) and e[1][4] == 0 \
+                        and e[2][0] == 'partition' and perm(e[2][1]) and e[3][0] == 'hull_set' and same(e[3][1], a) and same(e[3][2], cs[f]) and e[3][4] == 1
+                    # the partition predicates test against (f, b) and (a, f)
+                    flat = lambda caps: [t for c_ in caps for t in (c_ if isinstance(c_, list) else [c_])]
+                    ok = ok and same(flat(e[0][2]), cs[f] + b) and same(flat(e[2][2]), a + cs[f])
+                    if ok:
+                        dist = [(a[1] - b[1]) * (c[0] - a[0]) + (b[0] - a[0]) * (c[1] - a[1]) for c in cs]
+                        arg = z3.And([dist[f] >= dist[i] for i in range(n)] + [dist[f] > dist[i] for i in range(f + 1, n)])
+                        bad.append(z3.And(pc, z3.Not(arg)))
+            if not ok:
+                bad.append(pc)
+        bad.append(z3.Not(z3.Or(covered)))
+    st, info, model = check_unsat('hull_set_recursion_step', [z3.Or(bad)])
+    return dict(theory='Int (unbounded coordinates, nonlinear products); one run per path (re-execution), slices modelled as windows on a list', functions=['convex_hull::qhull::hull_set', 'its closures #0, #1', 'convex_hull::swap_with_first_and_remove'], paths=npaths, status=st, info=info, model=None, replay=('quick_hull_extremes', ''))
+
+
 # ---- C14: how Polygon validation assembles its per-ring and per-pair checks into errors
 
 def canon(v):
@@ -1285,6 +1350,47 @@ def o_polyval(mir, tier, seed):
     if detail:
         info['first_failing (holes, empty rings, checks switched on, stop_at, reported, expected, result)'] = [str(x)[:600] for x in detail[:3]]
     return dict(theory='structural (every configuration run concretely: no symbolic branch); elementary checks and relate uninterpreted', functions=['Validation for Polygon: visit_validation'], paths=npaths, status=st, info=info, model=None, replay=('polygon_validation', ''))
+
+
+# ---- C12: the scan line polygon interior_point intersects with the polygon
+
+@obligation('C12', 'interior_point_scan_line_avoids_vertices', 'polygon_interior_point_with_segment_length up to the construction of its scan line, for polygons of 3-4 (thorough: 5) coordinates with ANY real coordinates (bounding_rect = the exact bounding box): the scan line is horizontal, spans the bounding box in x, lies within it in y, and - unless every vertex has the same y (a flat polygon) - passes through NO vertex (the sweep and relate that follow are cut)')
+def o_scanline(mir, tier, seed):
+    from mir2smt import SliceIter
+    fn = mir.find('geo', r'polygon_interior_point_with_segment_length')
+    T = RealTheory()
+    bad, assume, npaths = [], [], 0
+    for n in ((3, 4) if tier == 'quick' else (3, 4, 5)):
+        cs = [coord(T, 'v%d_%d_' % (n, i)) for i in range(n)]
+        mn, mx = coord(T, 'bbmin%d_' % n), coord(T, 'bbmax%d_' % n)
+        for k in (0, 1):
+            assume += [mn[k] <= c[k] for c in cs] + [mx[k] >= c[k] for c in cs]
+            assume += [z3.Or([mn[k] == c[k] for c in cs]), z3.Or([mx[k] == c[k] for c in cs])]
+        lines = []
+
+        def line_new(ip, d, pc, lines=lines):
+            lines.append((pc, deref(d[0]), deref(d[1])))
+            return [deref(d[0]), deref(d[1])]
+        line_new.wants_pc = True
+        ring = [[list(c) for c in cs]]
+        uf = {'re:geo_types::Polygon::<\\w+>::exterior': lambda ip, d, ring=ring: ring,
+              're:<geo_types::Polygon<\\w+> as (algorithm::)?bounding_rect::BoundingRect<\\w+>>::bounding_rect': lambda ip, d, mn=mn, mx=mx: Enum('Some', [[list(mn), list(mx)]]),
+              're:geo_types::Rect::<\\w+>::min': lambda ip, d: list(d[0][0]), 're:geo_types::Rect::<\\w+>::max': lambda ip, d: list(d[0][1]),
+              're:<geo_types::Polygon<\\w+> as (algorithm::)?coords_iter::CoordsIter>::coords_iter': lambda ip, d, cs=cs: SliceIter([list(c) for c in cs]),
+              're:geo_types::Line::<\\w+>::new::<.*>': line_new,
+              're:<geo_types::Polygon<\\w+> as (algorithm::)?lines_iter::LinesIter<.*>>::lines_iter': lambda ip, d: ('halt', 'sweep')}
+        ip = Interp(mir, T, EXTRA, uf)
+        ip.max_steps = 400000
+        outs = ip.call_fn(fn, [Ref(lambda: ('polygon',))], z3.BoolVal(True))
+        npaths += len(outs)
+        bad.append(z3.Not(z3.Or([pc for pc, _, _ in lines])))       # every path builds a scan line
+        flat = z3.And([c[1] == cs[0][1] for c in cs])
+        for pc, a, b in lines:
+            ok = z3.And(a[1] == b[1], a[0] == mn[0], b[0] == mx[0], a[1] >= mn[1], a[1] <= mx[1],
+                        z3.Or(flat, z3.And([a[1] != c[1] for c in cs])))
+            bad.append(z3.And(pc, z3.Not(ok)))
+    st, info, model = check_unsat('interior_point_scan_line_avoids_vertices', assume + [z3.Or(bad)])
+    return dict(theory='Real (linear); coordinates arbitrary; any / filter_map / min_by modelled with std semantics (first minimum wins), partial_cmp total on the reals', functions=['interior_point::polygon_interior_point_with_segment_length (prefix up to the sweep)', 'its closures #0-#2'], paths=npaths, status=st, info=info, model=None, replay=('interior_point_scan_line', ''))
 
 
 # ---- C05 kernels
